@@ -51,7 +51,12 @@ func mSqrt(matrix Matrix) (Matrix, error) {
   Y1.MmulS(Y1.MaddM(Y0, t1), c)
   Z1 := Z0.CloneMatrix()
   Z1.MmulS(Z1.MaddM(Z0, t2), c)
-  for t0.Mnorm(S.MsubM(Y0, Y1)).GetFloat64() > 1e-8 {
+  // the iteration does not converge for every matrix (e.g. if the matrix has
+  // negative eigenvalues), hence the number of steps is bounded
+  for k := 0; t0.Mnorm(S.MsubM(Y0, Y1)).GetFloat64() > 1e-8; k++ {
+    if k > 1000 {
+      return nil, errors.New("MSqrt(): iteration did not converge")
+    }
     Y0, Y1 = Y1, Y0
     Z0, Z1 = Z1, Z0
     t1, err := matrixInverse.Run(Z0)
